@@ -41,6 +41,11 @@ FUNCS = [
     ('geophires_x/Economics.py', 'CalculateRevenue', {'Energy': 'List', 'Price': 'List'}),
     ('geophires_x/WellBores.py', 'InjectionReservoirPressurePredictor', {}),
     ('geophires_x/WellBores.py', 'ReservoirPressurePredictor', {}),
+    ('geophires_x/Economics.py', 'CalculateCarbonRevenue',
+     {'model': 'Skip', 'price_dollar_lb': 'List', 'NetkWhProduced': 'List', 'HeatkWhProduced': 'List',
+      # attribute chains read by the function: the end-use option and the two enum members it is compared with (any two distinct integers)
+      '@model.surfaceplant.enduse_option.value': ('enduse', 'Int'), '@EndUseOptions.ELECTRICITY': ('EU_ELECTRICITY', 'Int'),
+      '@EndUseOptions.HEAT': ('EU_HEAT', 'Int')}),
 ]
 
 # statement sequences inside methods: (file, class, method, name of the generated def, first statement (source text of its target),
@@ -78,10 +83,17 @@ class Tr:
         for k, (name, t) in (attrs or {}).items():
             if t is not None:
                 self.types[name] = t
+        for k, v in list(overrides.items()):
+            if k.startswith('@'):
+                self.attrs[k[1:]] = v[0]
+                self.types[v[0]] = v[1]
+        self.extra_params = [v for k, v in overrides.items() if k.startswith('@')]
         for a in fn.args.args:
             if a.arg == 'self':
                 raise Unsupported('method')
             t = overrides.get(a.arg)
+            if t == 'Skip':
+                continue
             if t is None:
                 ann = a.annotation
                 t = ANNOT.get(ann.id) if isinstance(ann, ast.Name) else None
